@@ -43,20 +43,19 @@ func ParseIdentity(
 			return nil, err
 		}
 
-		if password != "" {
-			for _, identity := range identities {
-				if identity.PrivateKey == nil {
-					return nil, config.ErrIdentityUnparsable
-				}
+		// Keys generated with an empty password are locked with the empty password, so always unlock (a no-op for unlocked keys)
+		for _, identity := range identities {
+			if identity.PrivateKey == nil {
+				return nil, config.ErrIdentityUnparsable
+			}
 
-				if err := identity.PrivateKey.Decrypt([]byte(password)); err != nil {
+			if err := identity.PrivateKey.Decrypt([]byte(password)); err != nil {
+				return nil, err
+			}
+
+			for _, subkey := range identity.Subkeys {
+				if err := subkey.PrivateKey.Decrypt([]byte(password)); err != nil {
 					return nil, err
-				}
-
-				for _, subkey := range identity.Subkeys {
-					if err := subkey.PrivateKey.Decrypt([]byte(password)); err != nil {
-						return nil, err
-					}
 				}
 			}
 		}
